@@ -1,6 +1,6 @@
 //! Checks that combine several engines under one property id.
 
-use crate::e1;
+use crate::{e1, e4};
 use sim_core::driver::{Check, RunOut, Tier};
 use sim_core::json::J;
 use sim_core::prng::Rng;
@@ -68,28 +68,39 @@ impl Check for C20 {
         "fault_enumeration"
     }
     fn rule(&self) -> String {
-        "run i (optimiser part): steps x inner_steps from {0,1,2,3,7,10,100,1000,1050}^2 (plus random inner 1..40), temperatures {0,1e-3,0.1,5}, schedules, convergence {None,0,1e-9,1e-3,1e9}, every landscape kind; optimise_state under catch_unwind; runs with a convergence threshold are executed with their twin without it. Non-trivial: a zero-length or inner>steps configuration, an early exit, or a history with accepts and rejects. Distinct: distinct history hashes.".into()
+        "run i (optimiser part): steps x inner_steps from {0,1,2,3,7,10,100,1000,1050}^2 (plus random inner 1..40), temperatures {0,1e-3,0.1,5}, schedules, convergence {None,0,1e-9,1e-3,1e9}, every landscape kind; optimise_state under catch_unwind; runs with a convergence threshold are executed with their twin without it. Every 8th run (CLI part): one execution of the shipped binary in a fresh scratch directory: a valid group/shape/potential/replication/step invocation from the swarm, combined with one fault from the finite list {none, ENOENT parent, ENOTDIR parent, EISDIR json, EISDIR svg, ENOSPC json, ENOSPC svg (/dev/full symlinks), polygon+LJ, sides<3, replications 0, steps 0, inner-steps 0, unknown group, missing start-config}. Non-trivial: a zero-length or inner>steps configuration, an early exit, a history with accepts and rejects, or any process execution. Distinct: distinct history hashes (process: exit status, normalised stderr, output bytes).".into()
     }
     fn runs(&self, tier: Tier) -> u64 {
         match tier {
-            Tier::Quick => 20_000,
-            Tier::Thorough => 1_000_000,
+            Tier::Quick => 16_000,
+            Tier::Thorough => 800_000,
         }
     }
-    fn generate(&self, rng: &mut Rng, tier: Tier, _i: u64) -> J {
-        e1::checks2::gen_c20_e1(rng, tier)
+    fn generate(&self, rng: &mut Rng, tier: Tier, i: u64) -> J {
+        // every 8th run is a process execution of the shipped binary
+        if i % 8 == 7 {
+            e4::gen_c20_e4(rng, tier)
+        } else {
+            e1::checks2::gen_c20_e1(rng, tier)
+        }
     }
     fn execute(&self, j: &J) -> Result<RunOut, String> {
         match engine_of(j) {
             "e1-landscape" => e1::checks2::exec_c20_e1(j),
+            "e4-cliproc" => e4::exec_c20_e4(j),
             other => Err(format!("unknown engine {}", other)),
         }
     }
     fn shrink(&self, j: &J) -> Vec<J> {
-        e1::checks2::shrink_c20_e1(j)
+        match engine_of(j) {
+            "e4-cliproc" => e4::shrink_c20_e4(j),
+            _ => e1::checks2::shrink_c20_e1(j),
+        }
     }
     fn components_real(&self) -> Vec<&'static str> {
-        e1::checks::REAL.to_vec()
+        let mut v = e1::checks::REAL.to_vec();
+        v.extend_from_slice(e4::REAL);
+        v
     }
     fn components_stub(&self) -> Vec<&'static str> {
         e1::checks::STUB.to_vec()
@@ -101,6 +112,6 @@ impl Check for C20 {
         ]
     }
     fn expected_probes(&self) -> Vec<&'static str> {
-        vec!["fault.F-zero", "probe.inner_gt_steps", "probe.non_multiple", "probe.early_exit"]
+        vec!["fault.F-zero", "probe.inner_gt_steps", "probe.non_multiple", "probe.early_exit", "fault.F-args", "fault.F-disk/enospc-json", "fault.F-disk/enospc-svg", "fault.F-disk/enoent", "fault.F-disk/enotdir", "fault.F-disk/eisdir-json", "fault.F-disk/eisdir-svg", "probe.cli_exit_zero", "probe.cli_exit_nonzero"]
     }
 }
